@@ -299,6 +299,8 @@ class BuiltinMixin:
     def b_getattr(self, fr, f, args, kw, node):
         o, n = args[0], args[1]
         sn = z3.simplify(n.t) if isinstance(n, SStr) else None
+        import os
+        if os.environ.get('PYVC_TRACE'): print('getattr', o, n, sn, args[2:])
         if sn is not None and z3.is_string_value(sn):
             try:
                 return self.getattr(fr, o, sn.as_string(), node)
@@ -317,6 +319,21 @@ class BuiltinMixin:
                 return args[2]
             raise PyRaise('AttributeError', getattr(node, 'lineno', None), 'no such attribute (symbolic name)')
         raise Unsupported('getattr with symbolic name')
+
+    def b_dataclasses_asdict(self, fr, f, args, kw, node):
+        """asdict(obj) for an instance of a @dataclass class of /repo whose fields hold scalars: a dict from the annotated
+        class attributes (in order) to the current attribute values"""
+        o = args[0]
+        if not isinstance(o, SObj):
+            raise Unsupported('asdict of a non-heap value')
+        ci = self.obj_class(o)
+        if not any(ast.unparse(d).split('(')[0].endswith('dataclass') for d in ci.node.decorator_list):
+            raise PyRaise('TypeError', getattr(node, 'lineno', None), 'asdict() should be called on dataclass instances')
+        out = {}
+        for st in ci.node.body:
+            if isinstance(st, ast.AnnAssign) and isinstance(st.target, ast.Name):
+                out[st.target.id] = self.getattr(fr, o, st.target.id, node)
+        return SDictC(out)
 
     def b_m_get(self, fr, f, args, kw, node):
         d = f.self_
